@@ -22,6 +22,7 @@ LPA = "latest_per_author"
 
 
 EXPLANATION += ' (R11, round 9) = C02.R3: the byte primitives behind the bounds of the head scans.'
+EXPLANATION += ' (R12, round 10) = the prune-predicate rows of C02.R1 (an entry removed behind the back of the head bookkeeping leaves a head nobody holds).'
 
 
 def r1(ctx):
